@@ -42,7 +42,7 @@ theorem emitMove_ok (p : Params) (hy : Hyp p) (e : Emit) (M : State) (hw : WF p 
     let g := groupOf v.out.regType
     let tok' := moveTok p.vis tok k c w
     let M' := M.set (.reg g outId) (some tok')
-    have hstep : step p.vis p.f.saOffSp p.f.saOffSa (spId p.cfg.arch) M ins = some M' := by
+    have hstep : step p.vis p.f p.cfg.arch M ins = some M' := by
       unfold step
       rw [hops]
       simp only [hnx, Bool.false_eq_true, if_false, heff, hgd, hgs]
@@ -110,7 +110,7 @@ theorem emitMove_ok (p : Params) (hy : Hyp p) (e : Emit) (M : State) (hw : WF p 
         · simp [WorkData.reassign, hpl]
         · exact hpl
       · rw [w_setW_ne _ _ _ _ (fun h => hgg h.symm)]; exact hw.physlen g' hg'
-    · exact run_push _ _ _ _ _ _ _ _ _ hw.runs hstep
+    · exact run_push _ _ _ _ _ _ _ _ hw.runs hstep
     · intro j hj
       show VarOK p c' M' j (c'.var j)
       by_cases hji : j = i
